@@ -31,6 +31,9 @@ Model/Hds.vos Model/Hds.vok Model/Hds.required_vos: Model/Hds.v Base/Plan.vos Ba
 Model/Lru.vo Model/Lru.glob Model/Lru.v.beautified Model/Lru.required_vo: Model/Lru.v 
 Model/Lru.vio: Model/Lru.v 
 Model/Lru.vos Model/Lru.vok Model/Lru.required_vos: Model/Lru.v 
+Model/OpenParent.vo Model/OpenParent.glob Model/OpenParent.v.beautified Model/OpenParent.required_vo: Model/OpenParent.v Base/Plan.vo
+Model/OpenParent.vio: Model/OpenParent.v Base/Plan.vio
+Model/OpenParent.vos Model/OpenParent.vok Model/OpenParent.required_vos: Model/OpenParent.v Base/Plan.vos
 Model/Vdi.vo Model/Vdi.glob Model/Vdi.v.beautified Model/Vdi.required_vo: Model/Vdi.v Base/Plan.vo Base/Table.vo Model/Walk.vo Gen/Consts.vo
 Model/Vdi.vio: Model/Vdi.v Base/Plan.vio Base/Table.vio Model/Walk.vio Gen/Consts.vio
 Model/Vdi.vos Model/Vdi.vok Model/Vdi.required_vos: Model/Vdi.v Base/Plan.vos Base/Table.vos Model/Walk.vos Gen/Consts.vos
@@ -55,12 +58,15 @@ Proofs/Chain.vos Proofs/Chain.vok Proofs/Chain.required_vos: Proofs/Chain.v Base
 Proofs/Hds.vo Proofs/Hds.glob Proofs/Hds.v.beautified Proofs/Hds.required_vo: Proofs/Hds.v Base/Arith.vo Base/Plan.vo Base/Table.vo Model/Hds.vo Proofs/BlockMapped.vo
 Proofs/Hds.vio: Proofs/Hds.v Base/Arith.vio Base/Plan.vio Base/Table.vio Model/Hds.vio Proofs/BlockMapped.vio
 Proofs/Hds.vos Proofs/Hds.vok Proofs/Hds.required_vos: Proofs/Hds.v Base/Arith.vos Base/Plan.vos Base/Table.vos Model/Hds.vos Proofs/BlockMapped.vos
-Proofs/Layers.vo Proofs/Layers.glob Proofs/Layers.v.beautified Proofs/Layers.required_vo: Proofs/Layers.v Base/Arith.vo Base/Plan.vo Base/Table.vo Model/Walk.vo Proofs/BlockMapped.vo Model/Chain.vo Proofs/Chain.vo Model/Vdi.vo Proofs/Vdi.vo Model/Hds.vo Proofs/Hds.vo
-Proofs/Layers.vio: Proofs/Layers.v Base/Arith.vio Base/Plan.vio Base/Table.vio Model/Walk.vio Proofs/BlockMapped.vio Model/Chain.vio Proofs/Chain.vio Model/Vdi.vio Proofs/Vdi.vio Model/Hds.vio Proofs/Hds.vio
-Proofs/Layers.vos Proofs/Layers.vok Proofs/Layers.required_vos: Proofs/Layers.v Base/Arith.vos Base/Plan.vos Base/Table.vos Model/Walk.vos Proofs/BlockMapped.vos Model/Chain.vos Proofs/Chain.vos Model/Vdi.vos Proofs/Vdi.vos Model/Hds.vos Proofs/Hds.vos
+Proofs/Layers.vo Proofs/Layers.glob Proofs/Layers.v.beautified Proofs/Layers.required_vo: Proofs/Layers.v Base/Arith.vo Base/Plan.vo Base/Table.vo Model/Walk.vo Proofs/BlockMapped.vo Model/Chain.vo Proofs/Chain.vo Model/Vdi.vo Proofs/Vdi.vo Model/Hds.vo Proofs/Hds.vo Model/Vhdx.vo Proofs/Vhdx.vo Proofs/VhdxPartial.vo Proofs/VhdxLayer.vo
+Proofs/Layers.vio: Proofs/Layers.v Base/Arith.vio Base/Plan.vio Base/Table.vio Model/Walk.vio Proofs/BlockMapped.vio Model/Chain.vio Proofs/Chain.vio Model/Vdi.vio Proofs/Vdi.vio Model/Hds.vio Proofs/Hds.vio Model/Vhdx.vio Proofs/Vhdx.vio Proofs/VhdxPartial.vio Proofs/VhdxLayer.vio
+Proofs/Layers.vos Proofs/Layers.vok Proofs/Layers.required_vos: Proofs/Layers.v Base/Arith.vos Base/Plan.vos Base/Table.vos Model/Walk.vos Proofs/BlockMapped.vos Model/Chain.vos Proofs/Chain.vos Model/Vdi.vos Proofs/Vdi.vos Model/Hds.vos Proofs/Hds.vos Model/Vhdx.vos Proofs/Vhdx.vos Proofs/VhdxPartial.vos Proofs/VhdxLayer.vos
 Proofs/Lru.vo Proofs/Lru.glob Proofs/Lru.v.beautified Proofs/Lru.required_vo: Proofs/Lru.v Model/Lru.vo
 Proofs/Lru.vio: Proofs/Lru.v Model/Lru.vio
 Proofs/Lru.vos Proofs/Lru.vok Proofs/Lru.required_vos: Proofs/Lru.v Model/Lru.vos
+Proofs/OpenParent.vo Proofs/OpenParent.glob Proofs/OpenParent.v.beautified Proofs/OpenParent.required_vo: Proofs/OpenParent.v Base/Plan.vo Model/OpenParent.vo
+Proofs/OpenParent.vio: Proofs/OpenParent.v Base/Plan.vio Model/OpenParent.vio
+Proofs/OpenParent.vos Proofs/OpenParent.vok Proofs/OpenParent.required_vos: Proofs/OpenParent.v Base/Plan.vos Model/OpenParent.vos
 Proofs/StreamReaders.vo Proofs/StreamReaders.glob Proofs/StreamReaders.v.beautified Proofs/StreamReaders.required_vo: Proofs/StreamReaders.v Base/Arith.vo Base/Plan.vo Base/Table.vo Model/AlignedStream.vo Proofs/AlignedStream.vo Model/Walk.vo Proofs/BlockMapped.vo Model/Vhd.vo Proofs/Vhd.vo Model/Vdi.vo Proofs/Vdi.vo Model/Vhdx.vo Proofs/Vhdx.vo Model/Hds.vo Proofs/Hds.vo
 Proofs/StreamReaders.vio: Proofs/StreamReaders.v Base/Arith.vio Base/Plan.vio Base/Table.vio Model/AlignedStream.vio Proofs/AlignedStream.vio Model/Walk.vio Proofs/BlockMapped.vio Model/Vhd.vio Proofs/Vhd.vio Model/Vdi.vio Proofs/Vdi.vio Model/Vhdx.vio Proofs/Vhdx.vio Model/Hds.vio Proofs/Hds.vio
 Proofs/StreamReaders.vos Proofs/StreamReaders.vok Proofs/StreamReaders.required_vos: Proofs/StreamReaders.v Base/Arith.vos Base/Plan.vos Base/Table.vos Model/AlignedStream.vos Proofs/AlignedStream.vos Model/Walk.vos Proofs/BlockMapped.vos Model/Vhd.vos Proofs/Vhd.vos Model/Vdi.vos Proofs/Vdi.vos Model/Vhdx.vos Proofs/Vhdx.vos Model/Hds.vos Proofs/Hds.vos
@@ -73,6 +79,12 @@ Proofs/Vhd.vos Proofs/Vhd.vok Proofs/Vhd.required_vos: Proofs/Vhd.v Base/Arith.v
 Proofs/Vhdx.vo Proofs/Vhdx.glob Proofs/Vhdx.v.beautified Proofs/Vhdx.required_vo: Proofs/Vhdx.v Base/Arith.vo Base/Plan.vo Base/Table.vo Base/Layout.vo Model/Walk.vo Model/Vhdx.vo Proofs/BlockMapped.vo Gen/Layouts.vo
 Proofs/Vhdx.vio: Proofs/Vhdx.v Base/Arith.vio Base/Plan.vio Base/Table.vio Base/Layout.vio Model/Walk.vio Model/Vhdx.vio Proofs/BlockMapped.vio Gen/Layouts.vio
 Proofs/Vhdx.vos Proofs/Vhdx.vok Proofs/Vhdx.required_vos: Proofs/Vhdx.v Base/Arith.vos Base/Plan.vos Base/Table.vos Base/Layout.vos Model/Walk.vos Model/Vhdx.vos Proofs/BlockMapped.vos Gen/Layouts.vos
+Proofs/VhdxLayer.vo Proofs/VhdxLayer.glob Proofs/VhdxLayer.v.beautified Proofs/VhdxLayer.required_vo: Proofs/VhdxLayer.v Base/Arith.vo Base/Plan.vo Base/Table.vo Model/Walk.vo Proofs/BlockMapped.vo Model/Vhdx.vo Proofs/Vhdx.vo Proofs/VhdxPartial.vo Model/Chain.vo Proofs/Chain.vo
+Proofs/VhdxLayer.vio: Proofs/VhdxLayer.v Base/Arith.vio Base/Plan.vio Base/Table.vio Model/Walk.vio Proofs/BlockMapped.vio Model/Vhdx.vio Proofs/Vhdx.vio Proofs/VhdxPartial.vio Model/Chain.vio Proofs/Chain.vio
+Proofs/VhdxLayer.vos Proofs/VhdxLayer.vok Proofs/VhdxLayer.required_vos: Proofs/VhdxLayer.v Base/Arith.vos Base/Plan.vos Base/Table.vos Model/Walk.vos Proofs/BlockMapped.vos Model/Vhdx.vos Proofs/Vhdx.vos Proofs/VhdxPartial.vos Model/Chain.vos Proofs/Chain.vos
+Proofs/VhdxPartial.vo Proofs/VhdxPartial.glob Proofs/VhdxPartial.v.beautified Proofs/VhdxPartial.required_vo: Proofs/VhdxPartial.v Base/Arith.vo Base/Plan.vo Base/Table.vo Model/Vhdx.vo
+Proofs/VhdxPartial.vio: Proofs/VhdxPartial.v Base/Arith.vio Base/Plan.vio Base/Table.vio Model/Vhdx.vio
+Proofs/VhdxPartial.vos Proofs/VhdxPartial.vok Proofs/VhdxPartial.required_vos: Proofs/VhdxPartial.v Base/Arith.vos Base/Plan.vos Base/Table.vos Model/Vhdx.vos
 Props/C03.vo Props/C03.glob Props/C03.v.beautified Props/C03.required_vo: Props/C03.v Base/Plan.vo Base/Table.vo Model/Vhdx.vo Proofs/Vhdx.vo
 Props/C03.vio: Props/C03.v Base/Plan.vio Base/Table.vio Model/Vhdx.vio Proofs/Vhdx.vio
 Props/C03.vos Props/C03.vok Props/C03.required_vos: Props/C03.v Base/Plan.vos Base/Table.vos Model/Vhdx.vos Proofs/Vhdx.vos
@@ -85,6 +97,9 @@ Props/C05.vos Props/C05.vok Props/C05.required_vos: Props/C05.v Base/Plan.vos Ba
 Props/C06.vo Props/C06.glob Props/C06.v.beautified Props/C06.required_vo: Props/C06.v Base/Plan.vo Base/Table.vo Model/Hds.vo Proofs/Hds.vo
 Props/C06.vio: Props/C06.v Base/Plan.vio Base/Table.vio Model/Hds.vio Proofs/Hds.vio
 Props/C06.vos Props/C06.vok Props/C06.required_vos: Props/C06.v Base/Plan.vos Base/Table.vos Model/Hds.vos Proofs/Hds.vos
+Props/C07.vo Props/C07.glob Props/C07.v.beautified Props/C07.required_vo: Props/C07.v Base/Plan.vo Base/Table.vo Model/Chain.vo Proofs/Chain.vo Proofs/Layers.vo Model/Vdi.vo Proofs/Vdi.vo Model/Hds.vo Proofs/Hds.vo Model/Vhdx.vo Proofs/Vhdx.vo Proofs/VhdxPartial.vo Proofs/VhdxLayer.vo Model/OpenParent.vo Proofs/OpenParent.vo
+Props/C07.vio: Props/C07.v Base/Plan.vio Base/Table.vio Model/Chain.vio Proofs/Chain.vio Proofs/Layers.vio Model/Vdi.vio Proofs/Vdi.vio Model/Hds.vio Proofs/Hds.vio Model/Vhdx.vio Proofs/Vhdx.vio Proofs/VhdxPartial.vio Proofs/VhdxLayer.vio Model/OpenParent.vio Proofs/OpenParent.vio
+Props/C07.vos Props/C07.vok Props/C07.required_vos: Props/C07.v Base/Plan.vos Base/Table.vos Model/Chain.vos Proofs/Chain.vos Proofs/Layers.vos Model/Vdi.vos Proofs/Vdi.vos Model/Hds.vos Proofs/Hds.vos Model/Vhdx.vos Proofs/Vhdx.vos Proofs/VhdxPartial.vos Proofs/VhdxLayer.vos Model/OpenParent.vos Proofs/OpenParent.vos
 Props/C08.vo Props/C08.glob Props/C08.v.beautified Props/C08.required_vo: Props/C08.v Base/Plan.vo Base/Table.vo Model/AlignedStream.vo Proofs/AlignedStream.vo Model/Lru.vo Proofs/Lru.vo Proofs/StreamReaders.vo Model/Vhd.vo Proofs/Vhd.vo Model/Vdi.vo Proofs/Vdi.vo Model/Vhdx.vo Proofs/Vhdx.vo Model/Hds.vo Proofs/Hds.vo
 Props/C08.vio: Props/C08.v Base/Plan.vio Base/Table.vio Model/AlignedStream.vio Proofs/AlignedStream.vio Model/Lru.vio Proofs/Lru.vio Proofs/StreamReaders.vio Model/Vhd.vio Proofs/Vhd.vio Model/Vdi.vio Proofs/Vdi.vio Model/Vhdx.vio Proofs/Vhdx.vio Model/Hds.vio Proofs/Hds.vio
 Props/C08.vos Props/C08.vok Props/C08.required_vos: Props/C08.v Base/Plan.vos Base/Table.vos Model/AlignedStream.vos Proofs/AlignedStream.vos Model/Lru.vos Proofs/Lru.vos Proofs/StreamReaders.vos Model/Vhd.vos Proofs/Vhd.vos Model/Vdi.vos Proofs/Vdi.vos Model/Vhdx.vos Proofs/Vhdx.vos Model/Hds.vos Proofs/Hds.vos
